@@ -319,6 +319,16 @@ drv_split_par!(AxisIterMut<'a, E, DynLayout>, 'a);
 drv_split_par!(AxisChunks<'a, E, DynLayout>, 'a);
 drv_split_par!(AxisChunksMut<'a, E, DynLayout>, 'a);
 impl<'a> Drv for Lane<'a, E> {}
+
+// rten-base's RangeChunks: SplitIterator, but parallel only through ParIter::from
+impl Drv for rten_base::iter::RangeChunks {
+    fn sp(self, k: usize) -> Option<(Self, Self)> {
+        Some(SplitIterator::split_at(self, k))
+    }
+    fn par<F: Fn(Self::Item) -> Vec<usize> + Sync + Send>(self, f: &F) -> Option<Vec<Vec<usize>>> {
+        Some(rten_parallel::par_iter::ParIter::from(self).map(|x| f(x)).collect())
+    }
+}
 impl<'a> Drv for LaneMut<'a, E> {}
 
 macro_rules! drv_nd {
